@@ -514,7 +514,7 @@ func genData(t *testing.T, tr *vhlib.Trace, r *vhlib.Rand, n int, defects bool) 
 					acked[k] = false
 				}
 			}
-		case x < 95:
+		case x < 94:
 			// an RPC uploads a few sectors (possibly into several volumes); the fsync of one dirty volume
 			// fails, the RPC fails; the renter retries the same uploads, Sync, commit; power loss
 			if len(w.writers) == 0 {
